@@ -196,6 +196,69 @@ Definition locked (t : list site) (locs : list string) (lock : string) : bool :=
                     negb (existsb (String.eqb (s_loc a)) locs) ||
                     existsb (fun l => String.eqb (fst l) lock && (snd l || negb (s_write a))) (s_locks a)) t.
 
+(* ---------- critical sections (the atomicity C14 leans on) ---------- *)
+(* An exclusive holder of a lock is alone on it: while a thread is inside a critical section it
+   opened with Lock(), no other thread is inside any section (Lock or RLock) of the same lock. *)
+Lemma In_nth_error {A} (x : A) l : In x l -> exists i, nth_error l i = Some x.
+Proof.
+  induction l as [|y l IH]; intros H; [destruct H|].
+  destruct H as [->|H]; [exists 0; reflexivity|]. destruct (IH H) as [i Hi]. exists (S i). exact Hi.
+Qed.
+
+Lemma excl_holder_alone s l t1 t2 e :
+  lock_inv s -> In (l, t1, true) s -> In (l, t2, e) s -> t1 = t2 /\ e = true.
+Proof.
+  intros Inv H1 H2. destruct (In_nth_error _ _ H1) as [i Hi]. destruct (In_nth_error _ _ H2) as [j Hj].
+  destruct (Nat.eq_dec i j) as [->|Hne].
+  - rewrite Hi in Hj. inversion Hj. auto.
+  - destruct (Inv i j l t1 true t2 e Hne Hi Hj) as [K _]. discriminate.
+Qed.
+
+Theorem critical_section_exclusive : forall tr s l t1 t2 e,
+  lrun [] tr = Some s -> In (l, t1, true) s -> In (l, t2, e) s -> t1 = t2.
+Proof.
+  intros tr s l t1 t2 e R H1 H2.
+  destruct (excl_holder_alone s l t1 t2 e (lock_inv_run tr [] s lock_inv_nil R) H1 H2) as [K _]. exact K.
+Qed.
+
+(* sites with the critical sections they lie in: (lock, exclusive?, acquisition site), outermost first;
+   generated next to the access table *)
+Definition ssite := (string * string * bool * list (string * bool * string))%type.
+Definition ss_entry (a : ssite) := fst (fst (fst a)).
+Definition ss_loc (a : ssite) := snd (fst (fst a)).
+Definition ss_write (a : ssite) := snd (fst a).
+Definition ss_secs (a : ssite) := snd a.
+
+Fixpoint section_of (lock : string) (l : list (string * bool * string)) : option (bool * string) :=
+  match l with
+  | [] => None
+  | (n, e, id) :: r => if String.eqb n lock then Some (e, id) else section_of lock r
+  end.
+
+(* every site of entry function [entry] touching one of [locs] lies in ONE critical section of
+   [lock] - the same acquisition -, opened exclusively when [excl]; there is at least one such
+   site (fail closed when the function no longer touches them) *)
+Definition one_section (t : list ssite) (entry : string) (locs : list string) (lock : string) (excl : bool) : bool :=
+  let sites := filter (fun a => String.eqb (ss_entry a) entry && existsb (String.eqb (ss_loc a)) locs) t in
+  match sites with
+  | [] => false
+  | a :: _ =>
+    match section_of lock (ss_secs a) with
+    | None => false
+    | Some (_, id) =>
+      forallb (fun b => match section_of lock (ss_secs b) with
+                        | Some (e, id') => String.eqb id id' && (e || negb excl)
+                        | None => false
+                        end) sites
+    end
+  end.
+
+(* writes to [locs] by goroutine roles happen inside a section of [lock] (any mode) *)
+Definition writes_inside (t : list site) (locs : list string) (lock : string) : bool :=
+  forallb (fun a => match role_of (s_entry a) roles with None => true | Some _ => false end ||
+                    negb (existsb (String.eqb (s_loc a)) locs) || negb (s_write a) ||
+                    existsb (fun l => String.eqb (fst l) lock) (s_locks a)) t.
+
 Corollary check_table_sound : forall t a b tr s t1 t2,
   check_table t = true -> In a t -> In b t -> conflict a b = true ->
   lrun [] tr = Some s -> t1 <> t2 ->
